@@ -71,9 +71,13 @@ StepBad(e, A, L) ==
              \/ (e.op = "poll" /\ oReq[e.f] = 0 /\ e.res # "ready")
              \/ (e.op = "try_acquire" /\ e.n = 0 /\ e.res # "some")
       c17 == \/ ("term" \in DOMAIN e /\ e.term # SetToSortedSeq({f \in Slots : A[f] = "done"}))
+             \* threaded runs report is_terminated() of the polled future only
+             \/ ("fterm" \in DOMAIN e /\ e.op = "poll" /\ e.fterm # (A[e.f] = "done"))
              \/ (e.op = "poll_done" /\ e.res # "panic")
       c18 == "alloc" \in DOMAIN e /\ e.alloc # 0
-  IN (IF c01 THEN {"C01"} ELSE {}) \cup (IF c05 THEN {"C05"} ELSE {})
+      \* a threaded run in which every task ended up parked: a lost wake-up
+      cdl == e.op = "abort" /\ "res" \in DOMAIN e /\ e.res = "deadlock"
+  IN (IF cdl THEN {"C06"} ELSE {}) \cup (IF c01 THEN {"C01"} ELSE {}) \cup (IF c05 THEN {"C05"} ELSE {})
      \cup (IF c07 THEN {"C07"} ELSE {}) \cup (IF c17 THEN {"C17"} ELSE {})
      \cup (IF c18 THEN {"C18"} ELSE {})
 
